@@ -380,6 +380,8 @@ func runC17(r *rt.Run) {
 	seeds = append(seeds, docgen.MemberDocs()...)
 	seeds = append(seeds, docgen.NestedKeyDocs()...)
 	seeds = append(seeds, docgen.CaseKeyDocs()...)
+	seeds = append(seeds, docgen.DimDocs()...)
+	seeds = append(seeds, docgen.BBoxDocs()...)
 	seeds = append(seeds, docgen.EscapedKeyDocs()...)
 	seeds = append(seeds, docgen.StringDocs()...) // every string unit and pair of units as member key / value
 	r.Bounds["parsed_documents"] = len(seeds)
